@@ -216,6 +216,18 @@ def run(chk):
         chk.ob("C20.N.only-ValueError-escapes", "lint::all abstract states", True, file=FILE, func="lint", line=fn.lineno, fact={"states": n_states * 2, "escapes": 0})
     if not any(r == "C20.N.spurious-report" for r, _ in bad):
         chk.ob("C20.N.spurious-report", "lint::all abstract states", True, file=FILE, func="lint", line=fn.lineno, fact={"states": n_states * 2, "spurious": 0})
+    # many violations at once (more than the summary lists): still one ValueError, in both modes
+    for n_bad in (1, 9, 10, 11, 12, 25):
+        attrs_ = {"a": {"type": "input", "output": False}}
+        edges_ = []
+        for i_ in range(n_bad):
+            attrs_[f"k{i_}"] = {"type": "1", "output": True}
+            edges_.append(("a", f"k{i_}"))  # fan-in on a constant
+        for fail_fast in (True, False):
+            r = run_lint_node(MCircuit({k: dict(v) for k, v in attrs_.items()}, edges_, {}), (True, False, False), fail_fast)
+            ok_ = r[0] == "raise" and r[1] == "ValueError"
+            chk.ob("C20.N.only-ValueError-escapes" if r[0] == "raise" else "C20.N.rule-missed", f"lint::{n_bad} violations at once::fail_fast={fail_fast}", ok_, file=FILE, func="lint", line=fn.lineno,
+                   fact={"result": str(r)[:100], "violations": n_bad}, expect="ValueError")
     chk.extra["abstract_states_node_predicate"] = n_states * 2
     chk.floor("abstract states tabulated for the node predicate", n_states, 1000)
 
@@ -322,8 +334,12 @@ def library_outputs_rule(chk):
             ob(f"logic.adder({w},{ci},{co})", val(P.call("logic.py", "adder", w, ci, co)), "logic.adder")
     for w in (2, 3, 4, 5):
         ob(f"logic.mux({w})", val(P.call("logic.py", "mux", w)), "logic.mux")
-    for w in (1, 2, 3, 4, 5):
+    # (widths on both sides of the powers of two, even and odd: the padding constant is kept exactly while something still reads it)
+    for w in (1, 2, 3, 4, 5, 6, 7, 8, 9, 10, 12, 14):
         ob(f"logic.popcount({w})", val(P.call("logic.py", "popcount", w)), "logic.popcount")
+    for w in (4, 6, 8):
+        for ci, co in ((True, False), (False, True)):
+            ob(f"logic.adder({w},{ci},{co})", val(P.call("logic.py", "adder", w, ci, co)), "logic.adder")
     # parsers
     ff = RefBlackBox("dff", ["clk", "d"], ["q", "qn"])
     texts = {
